@@ -2349,4 +2349,254 @@ example : ∀ s v, ((sumM 0).fill s v).2 = none := fun _ _ => rfl
 example : ((groupByM Int Int).compute ((groupByM Int Int).fillAll (groupByM Int Int).init
     [(1, 10), (2, 20), (1, 30)])).2 = .ok [.group [10, 30], .group [20]] := by rfl
 
+/-! ## Adversary round (notes/adversary_C09.md): Python's number types in `Sum`, values next to a bin edge,
+`VarianceMeanCount` around explicit sums -/
+
+section Adv1
+/-! ## Adversary round: Sum with Python's number types -/
+
+theorem tsum_fillAll (t0 : Num) (s : TSumSt) (vs : List (Item Num)) :
+    (tsumM t0).fillAll s vs = ⟨⟨s.total.val + numSum vs, s.total.isFloat || anyFloat vs⟩, ctxAfter s.ctx vs⟩ := by
+  induction vs generalizing s with
+  | nil => simp [Machine.fillAll, ctxAfter, numSum, anyFloat]
+  | cons v vs ih =>
+    rw [fillAll_cons, ih, ctxAfter_cons]
+    simp [tsumM, TSum.fill, Num.add, numSum, anyFloat, Bool.or_assoc]
+    omega
+
+/-- Sum, with types: for every fill sequence `compute()` yields `total0 + v1 + v2 + ...` - the exact value, and the
+type Python's `+` gives it: a float iff the start or one of the filled numbers is a float - with the context of the
+last filled value -/
+theorem tsum_compute_spec (t0 : Num) (vs : List (Item Num)) :
+    ((tsumM t0).compute ((tsumM t0).fillAll (tsumM t0).init vs)).2 =
+      .ok [withCtx ⟨t0.val + numSum vs, t0.isFloat || anyFloat vs⟩ (ctxAfter [] vs)] := by
+  rw [tsum_fillAll]
+  simp [tsumM, TSum.compute]
+
+/-- the typed model refines `sumM`: forgetting the types commutes with filling -/
+theorem tsum_erase (t0 : Num) (s : TSumSt) (vs : List (Item Num)) :
+    (sumM t0.val).fillAll ⟨s.total.val, s.ctx⟩ (eraseNum vs)
+      = ⟨((tsumM t0).fillAll s vs).total.val, ((tsumM t0).fillAll s vs).ctx⟩ := by
+  induction vs generalizing s with
+  | nil => rfl
+  | cons v vs ih =>
+    simp only [eraseNum, List.map_cons, fillAll_cons] at ih ⊢
+    have := ih (TSum.fill s v)
+    simpa [sumM, tsumM, Sum.fill, TSum.fill, Num.add, Item.context] using this
+
+/-- Sum, with types: after `reset()` every later history shows what it shows on `Sum()` - the int 0 -/
+theorem tsum_reset_fresh (t0 : Num) (h1 h2 : List (Op (Item Num))) :
+    ((tsumM t0).run ((tsumM t0).run (tsumM t0).init (h1 ++ [Op.reset])).1 h2).2 = (tsumM ⟨0, false⟩).observe h2 :=
+  reset_fresh_of_const (tsumM t0) (tsumM ⟨0, false⟩) rfl rfl rfl (fun _ => rfl) h1 h2
+
+/-- ... in particular nothing of the numbers filled before the reset is left, not even their type: whatever was
+filled before (floats, a float start), integers filled after `reset()` are added as integers - the total is an int
+(exact for integers of any size), a float only from the first float filled after the reset -/
+theorem tsum_type_after_reset (t0 : Num) (h1 : List (Op (Item Num))) (vs : List (Item Num)) :
+    ((tsumM t0).compute ((tsumM t0).fillAll ((tsumM t0).run (tsumM t0).init (h1 ++ [Op.reset])).1 vs)).2 =
+      .ok [withCtx ⟨numSum vs, anyFloat vs⟩ (ctxAfter [] vs)] := by
+  rw [Machine.run_append]
+  simp only [Machine.run, Machine.step]
+  rw [tsum_fillAll]
+  simp [tsumM, TSum.compute, TSum.reset]
+
+/-- a `reset` that assigns the zero *of the type the total has* (`type(self._total)()`) -/
+def tsumKeepTypeM (total0 : Num) : Machine TSumSt (Item Num) (Item Num) :=
+  { tsumM total0 with reset := fun s => ⟨⟨0, s.total.isFloat⟩, []⟩ }
+
+/-- ... is not `Sum()` again: after a float was filled, `reset(); compute()` yields the float 0.0, and every later
+integer is added in float arithmetic (machine-checked counterexample to that reading of `reset`) -/
+theorem tsum_keep_type_reset_not_fresh :
+    let m := tsumKeepTypeM ⟨0, false⟩
+    (m.run (m.run m.init ([.fill ⟨⟨1, true⟩, none⟩] ++ [Op.reset])).1 [.fill ⟨⟨5, false⟩, none⟩, .compute]).2
+      ≠ m.observe [.fill ⟨⟨5, false⟩, none⟩, .compute] := by
+  intro m h
+  simp [m, Machine.run, Machine.step, Machine.observe, tsumKeepTypeM, tsumM, TSum.fill, TSum.compute, Num.add,
+    withCtx, Item.context] at h
+
+example : (tsumM ⟨0, false⟩).observe [.fill ⟨⟨1, true⟩, some [("a", some 1)]⟩, .compute, .reset, .fill ⟨⟨5, false⟩, none⟩, .compute]
+    = [.filled none, .computed (.ok [⟨⟨1, true⟩, some [("a", some 1)]⟩]), .wasReset, .filled none,
+       .computed (.ok [⟨⟨5, false⟩, none⟩])] := by rfl
+
+/-! ## Adversary round: the bin of a value next to an edge -/
+
+/-- a value on an edge belongs to the bin that starts there ... -/
+theorem binIndex_on_edge (es : List Int) (hs : es.Pairwise (· < ·)) (j : Nat) (hj : j + 1 < es.length) :
+    binIndex es es[j] = j := by
+  rw [binIndex_spec es hs _ j hj]
+  have := List.pairwise_iff_getElem.mp hs j (j + 1) (by omega) hj (by omega)
+  omega
+
+/-- ... and a value below an edge belongs to the bin below it however close it is (the numbers of a case are scaled
+by 2^k for any k: `edge - 1` is the closest value at every resolution): the comparison with an edge is `≤`, not "close
+to" -/
+theorem binIndex_just_below_edge (es : List Int) (hs : es.Pairwise (· < ·)) (j : Nat) (hj : j + 1 < es.length) :
+    binIndex es (es[j + 1] - 1) = j := by
+  rw [binIndex_spec es hs _ j hj]
+  have := List.pairwise_iff_getElem.mp hs j (j + 1) (by omega) hj (by omega)
+  omega
+
+/-- so such a value is counted in bin `j`, never in bin `j + 1` -/
+theorem hist_fill_just_below_edge (es : List Int) (hs : es.Pairwise (· < ·)) (j : Nat) (hj : j + 1 < es.length)
+    (c : Option Ctx) : inBin es j ⟨es[j + 1] - 1, c⟩ = true ∧ inBin es (j + 1) ⟨es[j + 1] - 1, c⟩ = false := by
+  simp only [inBin, binIndex_just_below_edge es hs j hj]
+  constructor
+  · simp
+  · simp; omega
+
+example : binIndex [0, 8, 16] 7 = 0 ∧ binIndex [0, 8, 16] 8 = 1 := by decide
+
+/-! ## Adversary round: VarianceMeanCount around explicit sum elements -/
+section VmcOverSec
+variable {σ₁ σ₂ : Type}
+
+theorem vmcOver_fillAll (sq : Machine σ₁ (Item Int) (Item Int)) (sm : Machine σ₂ (Item Int) (Item Int)) (cfg : VmcCfg)
+    (hsq : ∀ s v, (sq.fill s v).2 = none) (hsm : ∀ s v, (sm.fill s v).2 = none)
+    (s : VmcOverSt σ₁ σ₂) (vs : List (Item Int)) :
+    ((vmcOverM sq sm cfg).fillAll s vs).sumSq = sq.fillAll s.sumSq (bareSq vs)
+    ∧ ((vmcOverM sq sm cfg).fillAll s vs).sum = sm.fillAll s.sum (bare vs)
+    ∧ ((vmcOverM sq sm cfg).fillAll s vs).count = s.count + vs.length
+    ∧ ((vmcOverM sq sm cfg).fillAll s vs).ctx = ctxAfter s.ctx vs := by
+  induction vs generalizing s with
+  | nil => simp [Machine.fillAll, bare, bareSq, ctxAfter]
+  | cons v vs ih =>
+    rw [fillAll_cons]
+    have e : ((vmcOverM sq sm cfg).fill s v).1
+        = ⟨(sq.fill s.sumSq ⟨v.data ^ 2, none⟩).1, (sm.fill s.sum ⟨v.data, none⟩).1, s.count + 1, v.context⟩ := by
+      simp [vmcOverM, VmcOver.fill, hsq, hsm]
+    rw [e]
+    have := ih ⟨(sq.fill s.sumSq ⟨v.data ^ 2, none⟩).1, (sm.fill s.sum ⟨v.data, none⟩).1, s.count + 1, v.context⟩
+    refine ⟨by rw [this.1]; rfl, by rw [this.2.1]; rfl, by rw [this.2.2.1]; simp; omega, by rw [this.2.2.2, ctxAfter_cons]⟩
+
+theorem dataSum_bareSq (vs : List (Item Int)) : dataSum (bareSq vs) = dataSumSq vs := by
+  simp [dataSum, dataSumSq, bareSq, List.map_map, Function.comp_def]
+
+theorem ctxAfter_bareSq (c : Ctx) (vs : List (Item Int)) : ctxAfter c (bareSq vs) = if vs = [] then c else [] := by
+  cases vs with
+  | nil => rfl
+  | cons v vs =>
+    simp only [bareSq, ctxAfter, List.getLast?_map]
+    cases h : (v :: vs).getLast? with
+    | none => simp at h
+    | some w => simp [Item.context]
+
+/-- `VarianceMeanCount(Sum(a), Sum(b))`: for every fill sequence the yielded triple is computed from
+`a + Σx²` and `b + Σx` - with `a = b = 0` the variance, mean and count of the filled values -, with the last context -/
+theorem vmc_sums_compute_spec (a b : Int) (cfg : VmcCfg) (vs : List (Item Int)) :
+    ((vmcOverM (sumM a) (sumM b) cfg).compute
+        ((vmcOverM (sumM a) (sumM b) cfg).fillAll (vmcOverM (sumM a) (sumM b) cfg).init vs)).2 =
+      let n : Rat := (vs.length : Rat)
+      let mean : Rat := ((b + dataSum vs : Int) : Rat) / n
+      let var : Rat := ((a + dataSumSq vs : Int) : Rat) / n - mean ^ 2
+      if vs.length = 0 then (if cfg.passOnEmpty then .ok [] else .error .zeroDivision)
+      else if cfg.corrected then
+        (if vs.length = 1 then .error .zeroDivision
+         else .ok [withCtx ⟨var * (n / (n - 1)), mean, vs.length⟩ (ctxAfter [] vs)])
+      else .ok [withCtx ⟨var, mean, vs.length⟩ (ctxAfter [] vs)] := by
+  have h := vmcOver_fillAll (sumM a) (sumM b) cfg (fun _ _ => rfl) (fun _ _ => rfl)
+    (vmcOverM (sumM a) (sumM b) cfg).init vs
+  show (VmcOver.compute (sumM a) (sumM b) cfg _).2 = _
+  unfold VmcOver.compute
+  rw [h.1, h.2.1, h.2.2.1, h.2.2.2]
+  simp only [vmcOverM, sumM, Nat.zero_add]
+  have e1 := sum_fillAll a ⟨a, []⟩ (bareSq vs)
+  have e2 := sum_fillAll b ⟨b, []⟩ (bare vs)
+  simp only [sumM] at e1 e2
+  rw [e1, e2, dataSum_bareSq, dataSum_bare, ctxAfter_bareSq, ctxAfter_bare]
+  cases vs with
+  | nil => simp
+  | cons v vs =>
+    simp [VmcOver.one, Sum.compute, withCtx]
+    by_cases hc : cfg.corrected = true
+    · by_cases hv : vs = [] <;> simp [hc, hv]
+    · simp [hc]
+
+/-- after `reset()`: what a new `VarianceMeanCount(sum_sq', sum_')` shows, the two sums being in the state their own
+`reset` leaves them in - for ALL histories before and after the reset.  Both sums must be reset for this: see
+`vmc_half_reset_not_fresh` -/
+theorem vmcOver_reset_fresh (sq sq' : Machine σ₁ (Item Int) (Item Int)) (sm sm' : Machine σ₂ (Item Int) (Item Int))
+    (cfg : VmcCfg)
+    (hf1 : sq'.fill = sq.fill) (hc1 : sq'.compute = sq.compute) (hr1 : sq'.reset = sq.reset)
+    (hres1 : ∀ s, sq.reset s = sq'.init)
+    (hf2 : sm'.fill = sm.fill) (hc2 : sm'.compute = sm.compute) (hr2 : sm'.reset = sm.reset)
+    (hres2 : ∀ s, sm.reset s = sm'.init) (h1 h2 : List (Op (Item Int))) :
+    ((vmcOverM sq sm cfg).run ((vmcOverM sq sm cfg).run (vmcOverM sq sm cfg).init (h1 ++ [Op.reset])).1 h2).2
+      = (vmcOverM sq' sm' cfg).observe h2 := by
+  apply reset_fresh_of_const (vmcOverM sq sm cfg) (vmcOverM sq' sm' cfg)
+  · simp [vmcOverM]; funext s v; simp [VmcOver.fill, hf1, hf2]
+  · simp [vmcOverM]; funext s; simp [VmcOver.compute, hc1, hc2]
+  · simp [vmcOverM]; funext s; simp [VmcOver.reset, hr1, hr2]
+  · intro s; simp [vmcOverM, VmcOver.reset, hres1, hres2]
+
+/-- `VarianceMeanCount(Sum(a), Sum(b))` after `reset()` is `VarianceMeanCount(Sum(), Sum())` -/
+theorem vmc_sums_reset_fresh (a b : Int) (cfg : VmcCfg) (h1 h2 : List (Op (Item Int))) :
+    ((vmcOverM (sumM a) (sumM b) cfg).run ((vmcOverM (sumM a) (sumM b) cfg).run (vmcOverM (sumM a) (sumM b) cfg).init
+      (h1 ++ [Op.reset])).1 h2).2 = (vmcOverM (sumM 0) (sumM 0) cfg).observe h2 :=
+  vmcOver_reset_fresh (sumM a) (sumM 0) (sumM b) (sumM 0) cfg rfl rfl rfl (fun _ => rfl) rfl rfl rfl (fun _ => rfl) h1 h2
+
+/-- a `_reset` that resets `sum_sq`, the count and the context, but not `sum_` -/
+def vmcHalfResetM (cfg : VmcCfg) : Machine (VmcOverSt SumSt SumSt) (Item Int) (Item Vmc) :=
+  { vmcOverM (sumM 0) (sumM 0) cfg with reset := fun s => ⟨Sum.reset s.sumSq, s.sum, 0, []⟩ }
+
+/-- ... does not make the element a new one: the values filled before it still count in the mean (machine-checked
+counterexample: 3 is filled, reset, 1 is filled - the mean is 4 instead of 1) -/
+theorem vmc_half_reset_not_fresh :
+    let m := vmcHalfResetM ⟨false, false⟩
+    (m.run (m.run m.init ([.fill ⟨3, none⟩] ++ [Op.reset])).1 [.fill ⟨1, none⟩, .compute]).2
+      ≠ m.observe [.fill ⟨1, none⟩, .compute] := by
+  intro m h
+  simp [m, Machine.run, Machine.step, Machine.observe, vmcHalfResetM, vmcOverM, VmcOver.fill, VmcOver.compute,
+    VmcOver.one, sumM, Sum.fill, Sum.compute, Sum.reset, withCtx, Item.context] at h
+  grind
+
+/-- the default element `VarianceMeanCount()` (`vmcM`) is the instance with two `Sum()`: the same observations for
+every history -/
+theorem vmc_is_vmcOver (cfg : VmcCfg) (h : List (Op (Item Int))) :
+    (vmcM cfg).observe h = (vmcOverM (sumM 0) (sumM 0) cfg).observe h := by
+  have key : ∀ (h : List (Op (Item Int))) (s : VmcSt), s.sumSq.ctx = [] → s.sum.ctx = [] →
+      ((vmcM cfg).run s h).2 = ((vmcOverM (sumM 0) (sumM 0) cfg).run ⟨s.sumSq, s.sum, s.count, s.ctx⟩ h).2 := by
+    intro h
+    induction h with
+    | nil => intros; rfl
+    | cons op ops ih =>
+      intro s h1 h2
+      cases op with
+      | fill v =>
+        simp only [Machine.run, Machine.step]
+        have := ih (Vmc.fill s v) (by simp [Vmc.fill, Sum.fill, Item.context]) (by simp [Vmc.fill, Sum.fill, Item.context])
+        simp [vmcM, vmcOverM, VmcOver.fill, sumM] at this ⊢
+        simpa [Vmc.fill] using this
+      | compute =>
+        simp only [Machine.run, Machine.step]
+        have e : ((vmcOverM (sumM 0) (sumM 0) cfg).compute ⟨s.sumSq, s.sum, s.count, s.ctx⟩)
+            = (⟨s.sumSq, s.sum, s.count, s.ctx⟩, Vmc.compute cfg s) := by
+          simp only [vmcOverM, VmcOver.compute, Vmc.compute, sumM, Sum.compute, h1, h2, withCtx, VmcOver.one]
+          by_cases hz : s.count = 0
+          · simp [hz]
+          · by_cases hc : cfg.corrected = true
+            · by_cases ho : s.count = 1 <;> simp [hz, hc, ho]
+            · simp [hz, hc]
+        rw [e]
+        have := ih s h1 h2
+        simp [vmcM] at this ⊢
+        exact this
+      | reset =>
+        simp only [Machine.run, Machine.step]
+        have := ih (Vmc.reset s) rfl rfl
+        simp [vmcM, vmcOverM, VmcOver.reset, sumM, Vmc.reset] at this ⊢
+        exact this
+  exact key h (vmcM cfg).init rfl rfl
+
+example : (vmcOverM (sumM 2) (sumM 1) ⟨false, false⟩).observe
+    [.fill ⟨3, some [("a", some 1)]⟩, .compute, .reset, .fill ⟨1, none⟩, .compute]
+    = [.filled none, .computed (.ok [⟨⟨(11 : Rat) - 16, 4, 1⟩, some [("a", some 1)]⟩]), .wasReset, .filled none,
+       .computed (.ok [⟨⟨0, 1, 1⟩, none⟩])] := by
+  simp [Machine.observe, Machine.run, Machine.step, vmcOverM, VmcOver.fill, VmcOver.compute, VmcOver.reset, VmcOver.one,
+    sumM, Sum.fill, Sum.compute, Sum.reset, withCtx, Item.context]
+  constructor <;> grind
+
+end VmcOverSec
+
+end Adv1
+
 end Lena.C09
